@@ -358,11 +358,13 @@ inline universe gen_universe_u64(vrng& r, unsigned size) {
 }
 
 // Byte-string universes: prefix-free by construction.
-inline universe gen_universe_bytes(vrng& r, unsigned size) {
+// short_only: keys of at most 8 bytes (C16's quantifier; K1 cannot occur there)
+inline universe gen_universe_bytes(vrng& r, unsigned size, bool short_only = false) {
   universe u;
   u.u64 = false;
   std::set<std::string> s;
-  const unsigned kind = static_cast<unsigned>(r.below(5));
+  unsigned kind = static_cast<unsigned>(r.below(5));
+  if (short_only) kind = (kind == 1 || kind == 4) ? 0 : kind;
   const unsigned n = 2 + static_cast<unsigned>(r.below(size));
   switch (kind) {
     case 0:
@@ -405,7 +407,7 @@ inline universe gen_universe_bytes(vrng& r, unsigned size) {
     case 2: {  // C-string style: alphabet 1..k, terminator 0, variable length
       u.kind = "cstring";
       const unsigned k = 1 + static_cast<unsigned>(r.below(5));
-      const unsigned maxlen = 1 + static_cast<unsigned>(r.below(10));
+      const unsigned maxlen = 1 + static_cast<unsigned>(r.below(short_only ? 7 : 10));
       for (unsigned i = 0; i < n * 3 && s.size() < n; ++i) {
         std::string key;
         const unsigned len = static_cast<unsigned>(r.below(maxlen + 1));
